@@ -60,9 +60,168 @@ Definition ragged_ok (rows : list Z) (idx count : list Z) (jjlen clen : Z) : boo
 Definition kernel_pre_arr (n : Z) (ii jj idx count y : list Z) (xlen ulen vlen clen : Z) : bool :=
   let maxy := fold_right Z.max 0 y in
   kernel_pre_arr_free (zlen ii) maxy &&
-  ragged_ok ii idx count (zlen jj) clen &&
+  ragged_ok ii idx count (zlen jj) clen && forallb (fun i => inb i n) ii &&
   forallb (fun j => inb j (zlen y) && inb j vlen) jj &&
   forallb (fun r => (0 <=? r) && (r <=? n)) y &&
   (n <=? zlen idx) && (n <=? zlen count) && (n <=? xlen) && (n <=? ulen) &&
   (* a row pushed back onto the work list (y[j] < n) must itself be well formed *)
   ragged_ok (filter (fun r => r <? n) y) idx count (zlen jj) clen.
+
+(* ================================================================== round 2: the raw-array reads *)
+Definition chk (k len : Z) : option unit := if inb k len then Some tt else None.
+
+(* ------------------------------------------------------------------ reduction_transfer (as written:
+   the column read is p_j[j_idx], NOT p_j[p_idx[i] + j_idx] - finding F1 - so the model reads
+   jj[j_idx]).  u, v, c are float arrays: only their lengths matter; which of the candidates is the
+   minimum decides VALUES only, every index below is formed whatever the comparisons say (the two
+   read-modify-writes v[j1], u[i] happen under `if j_at_min != -1`: checked always = superset). *)
+Definition rt_cand (jj : list Z) (vlen clen base j1 : Z) (_ : unit) (j_idx : Z) : option unit :=
+  do j_temp <- rd jj j_idx;                                  (* j_temp = p_j[j_idx] *)
+  if j_temp =? j1 then Some tt
+  else do _ <- chk (base + j_idx) clen; chk j_temp vlen.     (* p_c[j_idx] - v_base[j_temp] *)
+
+Definition rt_row (jj idx count x : list Z) (ulen vlen clen : Z) (_ : unit) (i : Z) : option unit :=
+  do j1 <- rd x i;                                           (* j1 = p_x[i] *)
+  do cnt <- rd count i;
+  do base <- rd idx i;
+  do _ <- foldM (rt_cand jj vlen clen base j1) (zrange 0 cnt) tt;
+  do _ <- chk j1 vlen;                                       (* v_base[j1] -= ... *)
+  chk i ulen.                                                (* p_u[i] = min_u *)
+
+Definition reduction_transfer (ii jj idx count x : list Z) (ulen vlen clen : Z) : option unit :=
+  foldM (rt_row jj idx count x ulen vlen clen) ii tt.        (* i = p_i[iii] for every iii *)
+
+Definition kernel_pre_rt (ii jj idx count x : list Z) (ulen vlen clen : Z) : bool :=
+  forallb (fun j => inb j vlen) jj &&
+  forallb (fun i => inb i ulen &&
+     match rd x i, rd count i, rd idx i with
+     | Some j1, Some c, Some s => inb j1 vlen && (0 <=? s) && (0 <=? c) && (c <=? zlen jj) && (s + c <=? clen)
+     | _, _, _ => false
+     end) ii.
+
+(* ------------------------------------------------------------------ augmenting_row_reduction, all reads.
+   The float comparisons are an oracle: per candidate column  B1 (temp < u1), B2 (temp < u2) or B0;
+   per row whether `u1 + eps < u2`.  j1 / j2 are C locals without initialiser: [None] until
+   assigned; USING an unassigned one as an index is an error of the model.  For finite costs the
+   first candidate of a row always answers B1 (temp < +inf), the second B1 or B2, and a row with a
+   single candidate is strict (u2 = +inf): [row_oracle_ok]. *)
+Inductive cmp3 : Type := B1 | B2 | B0.
+
+Fixpoint arr_scan (jj : list Z) (vlen clen base : Z) (ks : list Z) (os : list cmp3) (j1 j2 : option Z)
+  : option (option Z * option Z) :=
+  match ks, os with
+  | [], _ => Some (j1, j2)
+  | _, [] => Some (j1, j2)
+  | k :: kt, o :: ot =>
+      do j <- rd jj (base + k);                              (* j = p_j[jjj] *)
+      do _ <- chk (base + k) clen;                           (* p_c[jjj] *)
+      do _ <- chk j vlen;                                    (* p_v_base[j] *)
+      match o with
+      | B1 => arr_scan jj vlen clen base kt ot (Some j) j1   (* j2 = j1; j1 = j *)
+      | B2 => arr_scan jj vlen clen base kt ot j1 (Some j)
+      | B0 => arr_scan jj vlen clen base kt ot j1 j2
+      end
+  end.
+
+Definition use (o : option Z) : option Z := o.               (* reading an unassigned local = None *)
+
+Record arrst : Type := mkarrst { a_k : Z; a_nfree : Z; a_ii : list Z; a_free : list Z; a_x : list Z; a_y : list Z }.
+
+(* the oracle of one row is what finite costs allow *)
+Definition row_oracle_ok (cnt : Z) (o : list cmp3 * bool) : bool :=
+  (zlen (fst o) =? cnt) &&
+  match fst o with
+  | [] => false
+  | [B1] => snd o
+  | B1 :: (B1 | B2) :: _ => true
+  | _ => false
+  end.
+
+(* one pass through the while body; [Some None] = the oracle entry is one that finite costs cannot
+   produce for this row: the run is cut there (outside the domain, nothing further is claimed) *)
+Definition arr_iter (n : Z) (jj idx count : list Z) (vlen clen : Z) (s : arrst) (o : list cmp3 * bool)
+  : option (option arrst) :=
+  let '(os, strict) := o in
+  do i <- rd (a_ii s) (a_k s);                               (* i = p_i[k]; k += 1 *)
+  let k1 := a_k s + 1 in
+  do n_j <- rd count i;
+  do base <- rd idx i;
+  if negb (row_oracle_ok n_j o) then Some None else
+  do jp <- arr_scan jj vlen clen base (zrange 0 n_j) os None None;
+  let '(j1o, j2o) := jp in
+  do j1 <- use j1o;
+  do i1 <- rd (a_y s) j1;                                    (* i1 = p_y_base[j1] *)
+  do sel2 <- (if strict then do _ <- chk j1 vlen; Some (j1, i1)      (* p_v_base[j1] = ... *)
+              else if negb (i1 =? n)
+                   then do j2 <- use j2o; do i2 <- rd (a_y s) j2; Some (j2, i2)   (* j1 = j2; i1 = p_y_base[j1] *)
+                   else Some (j1, i1));
+  let '(j1', i1') := sel2 in
+  do s1 <- (if negb (i1' =? n) then
+              if strict then do ii' <- wr (a_ii s) (k1 - 1) i1';           (* k -= 1; p_i[k] = i1 *)
+                             Some (mkarrst (k1 - 1) (a_nfree s) ii' (a_free s) (a_x s) (a_y s))
+              else do f' <- wr (a_free s) (a_nfree s) i1';                 (* p_free[nfree] = i1 *)
+                   Some (mkarrst k1 (a_nfree s + 1) (a_ii s) f' (a_x s) (a_y s))
+            else Some (mkarrst k1 (a_nfree s) (a_ii s) (a_free s) (a_x s) (a_y s)));
+  do x' <- wr (a_x s1) i j1';                                (* p_x_base[i] = j1 *)
+  do y' <- wr (a_y s1) j1' i;                                (* p_y_base[j1] = i *)
+  Some (Some (mkarrst (a_k s1) (a_nfree s1) (a_ii s1) (a_free s1) x' y')).
+
+Fixpoint arr_run (n n_i : Z) (jj idx count : list Z) (vlen clen : Z) (oracle : list (list cmp3 * bool)) (s : arrst)
+  : option arrst :=
+  match oracle with
+  | [] => Some s
+  | o :: t => if a_k s <? n_i
+              then do r <- arr_iter n jj idx count vlen clen s o;
+                   match r with
+                   | None => Some s
+                   | Some s' => arr_run n n_i jj idx count vlen clen t s'
+                   end
+              else Some s
+  end.
+
+(* free = zeros(max(y)+1), k = nfree = 0 *)
+Definition arr_init (ii x y : list Z) : arrst :=
+  mkarrst 0 0 ii (repeat 0 (Z.to_nat (fold_right Z.max 0 y + 1))) x y.
+
+(* ------------------------------------------------------------------ augment, the closing loop
+   `for i in range(n): j = x[i]; jidx = bsearch(row i, j); u[i] = c[idx[i] + jidx] - v[j]` *)
+Definition aug_final_row (fuel : nat) (jj idx count x : list Z) (ulen vlen clen : Z) (_ : unit) (i : Z)
+  : option unit :=
+  do j <- rd x i;
+  do base <- rd idx i;
+  do cnt <- rd count i;
+  do r <- bsearch fuel jj base 0 (cnt - 1) j;
+  match r with
+  | None => None                                             (* undefined return value used as an index *)
+  | Some jidx => do _ <- chk (base + jidx) clen; do _ <- chk j vlen; chk i ulen
+  end.
+Definition aug_final (fuel : nat) (n : Z) (jj idx count x : list Z) (ulen vlen clen : Z) : option unit :=
+  foldM (aug_final_row fuel jj idx count x ulen vlen clen) (zrange 0 n) tt.
+
+(* rows strictly increasing, inside jj / c, columns below n *)
+Definition row_sorted (jj : list Z) (s c : Z) : bool :=
+  forallb (fun k => match rd jj (s + k), rd jj (s + k + 1) with
+                    | Some a, Some b => a <? b
+                    | _, _ => false
+                    end) (zrange 0 (c - 1)).
+Definition row_has (jj : list Z) (s c j : Z) : bool :=
+  existsb (fun k => match rd jj (s + k) with Some a => a =? j | None => false end) (zrange 0 c).
+Definition rows_ok (n : Z) (jj idx count : list Z) (clen : Z) : bool :=
+  (n <=? zlen idx) && (n <=? zlen count) &&
+  forallb (fun i => match rd idx i, rd count i with
+                    | Some s, Some c => (0 <=? s) && (1 <=? c) && (s + c <=? zlen jj) && (s + c <=? clen) &&
+                                        row_sorted jj s c
+                    | _, _ => false
+                    end) (zrange 0 n).
+(* at entry of augment: rows well formed, every assigned pair (i, x[i]) / (y[j], j) is listed, the
+   unassigned rows ii are rows *)
+Definition kernel_pre_augment (n : Z) (ii jj idx count x y : list Z) (ulen vlen clen : Z) : bool :=
+  rows_ok n jj idx count clen && forallb (fun j => inb j n) jj &&
+  (zlen x =? n) && (zlen y =? n) && (n <=? ulen) && (n <=? vlen) &&
+  forallb (fun i => inb i n) ii &&
+  forallb (fun j => match rd y j with
+                    | Some i => (i =? n) || (inb i n && match rd idx i, rd count i with
+                                                        | Some s, Some c => row_has jj s c j
+                                                        | _, _ => false end)
+                    | None => false end) (zrange 0 n) &&
+  forallb (fun i => match rd x i with Some j => (0 <=? j) && (j <=? n) | None => false end) (zrange 0 n).
